@@ -13,7 +13,7 @@ import (
 
 // C37 — the inner ring approves container changes only when the owner authorised them.
 func init() {
-	register(&Check{ID: "C37", Level: "other", Pkgs: []string{"./pkg/innerring/processors/container"}, Run: runC37})
+	register(&Check{ID: "C37", Level: "other", Pkgs: []string{"./pkg/innerring/processors/container", "./internal/crypto"}, Run: runC37})
 }
 
 const cpT = "(*pkg/innerring/processors/container.Processor)"
@@ -291,4 +291,8 @@ func runC37(p *core.Prog, r *core.Report) {
 		}
 		r4.Check(got1 == want && got2 == want, fnName+"#verbs", p.Pos(fn.Pos()), "V1 and V2 verbs are "+want, "session verbs of this check are V1="+got1+" V2="+got2+", expected "+want+" for both")
 	}
+	// ---- R5 'issued by the owner' is read from an authenticated chain (shared with C30.R7)
+	r5 := r.Rule("C37.R5", "the token authentication verifySessionV2 relies on walks the whole delegation chain: AuthenticateTokenV2 returns nil only if the token has no origin or the same check passed for its origin — the issuer compared with the container owner is the ORIGINAL issuer, read from the innermost token", 2)
+	delegationChainAuthenticated(p, r, r5)
+	r.Explain += " (R5, shared with C30.R7) verifySessionV2 compares the container owner with the token's original issuer, i.e. with a field of the innermost token of a delegation chain; the authentication it calls returns nil on no path that skips the same check for the origin token, so an outer token signed by anybody cannot carry a forged owner-issued origin."
 }
